@@ -163,10 +163,17 @@ def r3(ctx, by):
     prog = ctx.prog
     f = by['qb_array_index']
     idxp = f.params[1]['n']
+    from engine.qb import unwrap as _u
     shifts = [n for ev in f.events() for t in (ev.rhs, ev.d.get('init')) if t for n in walk(t)
               if n.get('k') == 'bin' and n['op'] == '>>' and mentions_var(n['l'], idxp)]
-    masks = [n for ev in f.events() for t in (ev.rhs, ev.d.get('init')) if t for n in walk(t)
-             if n.get('k') == 'bin' and n['op'] == '&' and mentions_var(n['l'], idxp)]
+    allmasks = [n for ev in f.events() for t in (ev.rhs, ev.d.get('init')) if t for n in walk(t)
+                if n.get('k') == 'bin' and n['op'] == '&' and mentions_var(n['l'], idxp)]
+    # the element mask is applied to the index itself; a mask applied to the shifted index would fold out-of-range bin numbers
+    # onto valid ones (an index the range checks let through by mistake would then alias another element instead of failing)
+    masks = [n for n in allmasks if unwrap(n['l']).get('k') == 'var']
+    folded = [n for n in allmasks if any(x.get('k') == 'bin' and x['op'] == '>>' for x in walk(n['l']))]
+    ctx.check('R3', 'bin-number-not-folded', not folded, f, 'the bin number is the plain shifted index',
+              'the bin number is masked (%s): an out-of-range index aliases the element of a valid index instead of being caught' % (estr(folded[0]) if folded else ''))
     if len(shifts) != 1 or len(masks) != 1:
         raise AnalysisBroken('qb_array_index: bin shift / element mask not found (%d/%d)' % (len(shifts), len(masks)))
     sh = cval(unwrap(shifts[0]['r']))
